@@ -82,4 +82,22 @@ def formatted (tok : Str → List Sec) (customs : List (Nat × Str)) (s id : Nat
   | none => .ok value
   | some code => format (tok code) value cellNumeric n d
 
+/-! ## the cell reader's normalisation of numeric text (cell.go getValueFrom, default cell type) -/
+
+/-- `precision > 15` -/
+def normPrecision : Nat := lit Facts.C10.getValueFromInts 3
+
+/-- what `getValueFrom` hands to `formattedValue` for a cell without a type attribute:
+numeric text is re-rendered from its binary64 value — shortest digits, or 15 significant digits
+('G', 15) when the shortest rendering has more than 15 digits; other text is passed as it is.
+`short` = `FormatFloat(decimal,'f',-1,64)`, `g15` = `FormatFloat(decimal,'G',15,64)`. -/
+def normalize (isNum : Bool) (precision : Nat) (short g15 raw : Str) : Str :=
+  if isNum then (if precision > normPrecision then g15 else short) else raw
+
+/-- GetCellValue of a default-type cell: normalise, then resolve the style to a code and format.
+`n'` is the number layer of the NORMALISED text. -/
+def read (tok : Str → List Sec) (customs : List (Nat × Str)) (s id : Nat) (o : GOpts)
+    (isNum : Bool) (precision : Nat) (short g15 raw : Str) (n' : NumIn) (d : DateIn) : Out :=
+  formatted tok customs s id o (normalize isNum precision short g15 raw) true n' d
+
 end XlModel.NumFmt.Glue
